@@ -92,7 +92,7 @@ def corpus17():
                  "body": [("assign", "f", ("choice", [(c(F(1, 2)), c(0)), (c(F(1, 2)), c(1))])),
                           ("if", [(("atom", v("f"), "==", c(1)), [("simult", [("x", P.det(("add", v("x"), v("y")))), ("y", P.det(v("x")))])])], None)]},
                 [{"x": 1}], "irrational-roots+if"))
-    # conditioned draw (ConditionsToArithm crashes here: known).  NOTE: no variable of this corpus is spelled like a
+    # conditioned draw (ConditionsToArithm crashed here before /repo 0c1450d).  NOTE: no variable of this corpus is spelled like a
     # tag of get_unique_var (t, c, r, u, a, k, s, b, old, prob): such names can collide with generated names
     # depending on the counter of the worker process (C20 finding), which would make this check history dependent
     out.append(({"types": [], "init": [("assign", "f", P.det(c(0))), ("assign", "d", P.det(c(0))), ("assign", "z", P.det(c(0)))],
@@ -324,7 +324,7 @@ def process_programs(ctx, progs, tasks, meta, results, exact, n_oracle):
             if "error" in r or "exception" in r:
                 k = err_class(r)
                 if is_draw_crash(r):
-                    # known defect: a crash is "does not succeed", not a changed result
+                    # defect repaired in /repo 0c1450d (a crash is "does not succeed", not a changed result): reported if it returns
                     ctx.violation(KNOWN_DRAW_CRASH, {"program_text": t["text"], "options": t["opts"], "exception": r.get("exception")},
                                   "cond2arithm crashes on a conditioned draw")
                 crash[k] = crash.get(k, 0) + 1
@@ -555,7 +555,12 @@ def numeric_systems(ctx, count):
              systems.task([[0, -1, 0], [1, 0, 0], [0, 0, "1/2"]], [1, 0, 3]),
              systems.task([[0, 0, 1], [1, 0, 1], [0, 1, 0]], [1, 0, 2]),
              systems.task([[2, 1], [0, "1/2"]], [1, 1]), systems.task([[0, 2], [1, 0]], [1, 1]),
-             systems.task([[1, 1, 0], [1, 0, 0], [0, 0, 2]], [1, 0, 1], ["0", "0", "1"])]
+             systems.task([[1, 1, 0], [1, 0, 0], [0, 0, 2]], [1, 0, 1], ["0", "0", "1"]),
+             # irreducible cubic factor (sympy returns ComplexRootOf roots) times a rational root that sorts after / before them:
+             # (t^3 - 3t + 1)(t - 2), (t^3 - 3t + 1)(t + 3), (t^3 - t - 1)(t - 1/2)
+             systems.task([[0, 3, -1, 0], [1, 0, 0, 0], [0, 1, 0, 0], [0, 0, 0, 2]], [1, 0, 2, 1]),
+             systems.task([[0, 3, -1, 0], [1, 0, 0, 0], [0, 1, 0, 0], [0, 0, 1, -3]], [1, 1, 0, 1]),
+             systems.task([[0, 1, 1, 0], [1, 0, 0, 0], [0, 1, 0, 0], [1, 0, 0, "1/2"]], [1, 0, 2, 1])]
     out = [("fixed", t) for t in fixed]
     while len(out) < count:
         out.append(("quadratic", systems.gen_quadratic(ctx.rng)))
@@ -563,6 +568,7 @@ def numeric_systems(ctx, count):
 
 
 NUM_NV = 16
+FLOAT = re.compile(r"\d\.\d")
 
 
 def numeric_tasks(ctx):
@@ -613,6 +619,16 @@ def process_numeric(ctx, meta, res):
         hist[oname] = hist.get(oname, 0) + 1
         base = {"system": {"A": t["A"], "v": t["v"]}, "options": o, "is_exact": r["is_exact"], "closed_forms": r["sols"]}
         nonreal = nonreal_roots(A) if o.get("numeric_roots") else 0
+        # flagged exact => the closed forms contain no floating-point number (a root was replaced numerically otherwise)
+        floats = [sol for sol in r["sols"] if FLOAT.search(sol)]
+        ctx.coverage["obligations"] += 1
+        if r["is_exact"] and floats:
+            ctx.violation(f"exact-flag-with-float:{t['A']}:{t['v']}:{oname}", dict(base, closed_form_with_float=floats[0][:400]),
+                          f"solution of A={t['A']} v={t['v']} with {oname} is reported as exact but contains floating-point numbers: {floats[0][:160]}")
+            continue
+        ctx.coverage["discharged"] += 1
+        if floats:
+            hist[oname + ":with-numerified-roots"] = hist.get(oname + ":with-numerified-roots", 0) + 1
         if r["is_exact"] and exact_vals:
             # an exact-flagged result must validate exactly, for all n (kernel)
             lab = {"family": fam, "mons": t["mons"], "A": t["A"], "v": t["v"], "force_cyclic": True, "solver": r["solver"], "point": {},
@@ -848,8 +864,8 @@ def run(ctx):
     ctx.assumptions += [
         "programs and systems are sampled; per instance the validators give 'for all n' (closed form = A^n v; with check_pipeline: = exact moments of the flat program), "
         f"pairs of settings with different flat programs are additionally compared for n <= {NVALS} against each other and for n <= {n_oracle} with the source semantics",
-        "the conditioned-draw branch of the cond2arithm model cannot be tied to the code: the real pass raises AttributeError there (known finding); "
-        "the theorem covers the evident intent (fresh u = D; x = [C]u + [not C]default)",
+        "since /repo 0c1450d the conditioned-draw branch of the cond2arithm model (fresh u = D; x = [C]u + [not C]default) is tied to the real pass "
+        "like the polynomial branch (c2a_matches on the snapshots)",
         "transform_categoricals: the theorem is about the source statement; the normalisation passes applied afterwards are C02's subject "
         "(those pairs are validated per flat program and compared on n <= 8)",
         "numeric options: the tolerance 100*eps*(n+1)^2*max(1,|value|) for n <= 15 is a validation bound, not a theorem",
